@@ -30,7 +30,7 @@ for p in props:
         "replay_cmd_template": "python3 tools/check.py %s --replay {path}" % pid,
         "engine": "coq+harness",
         "level_claimed": {"category": m["category"], "text": m["text"], "design_ref": m.get("design_ref", "DESIGN.md section 4")},
-        "level_note": m["level_note"],
+        "level_note": m.get("level_note") or "; ".join(c.get("assumptions", [])) or "see DESIGN.md section 5",
         "technique": m["technique"],
     })
 man = {
